@@ -427,3 +427,37 @@ func (w *W) genRandom(count int, maxLen int, fn inputFn) {
 		fn(fmt.Sprintf("random-%d", a), b)
 	}
 }
+
+// genBoundaryPairs puts every pair (c1,c2) of byte classes on the last byte of
+// a 64-byte block and the first byte of the next, outside and inside a
+// string, with several continuations. Exercises every cross-block carry of
+// stage 1 (quote state, odd backslash runs, pseudo-structural predecessor).
+func (w *W) genBoundaryPairs(fn inputFn) {
+	alphabet := []byte{'"', '\\', ' ', '\n', ',', ':', '[', ']', '{', '}', '1', 'a', 't', '-', 0x1f, 0x0b, 0x80}
+	suffixes := []string{`]`, `"]`, `,1]`, `":1}`, `,"z"]`, `x"]`, ` ]`, `"`, ``}
+	i := 0
+	for blk := 1; blk <= 2; blk++ {
+		for ctx := 0; ctx < 3; ctx++ {
+			var pre string
+			switch ctx {
+			case 0: // outside strings, inside an array
+				pre = "[1," + strings.Repeat(" ", 64*blk-1-3)
+			case 1: // inside a string value
+				pre = `["` + strings.Repeat("s", 64*blk-1-2)
+			case 2: // inside a key
+				pre = `{"` + strings.Repeat("k", 64*blk-1-2)
+			}
+			for _, c1 := range alphabet {
+				for _, c2 := range alphabet {
+					for _, suf := range suffixes {
+						i++
+						if !w.mine(i) {
+							continue
+						}
+						fn("boundary-pair", []byte(pre+string([]byte{c1, c2})+suf))
+					}
+				}
+			}
+		}
+	}
+}
